@@ -7,7 +7,9 @@ from vlib import split_corr
 
 PROP = "C04"
 THEOREMS = ["GitAi.Split3.classify_spec", "GitAi.Split3.split_coordinates_partial",
-            "GitAi.Split3.witness_unstaged_deletion", "GitAi.Split3.split_outputs_wf"]
+            "GitAi.Split3.witness_unstaged_deletion", "GitAi.Split3.split_outputs_wf",
+            "GitAi.Sys.every_commit_exact", "GitAi.Sys.pending_line_carried",
+            "GitAi.Sys.witness_pending_edited_before_checkpoint"]
 
 
 def regions(head, work):
@@ -178,6 +180,8 @@ def run_scenario(sc):
                             uid = files[p][ln - 1][2]
                             seen.setdefault(uid, []).append(sha)
             ncommits = len(run.commits)
+            sc["_observed"] = [S.observed_note_lines(run.repo.note(sha)) for sha, _ in run.commits[1:]]
+            sc["_skip"] = sorted(stale_initial | o2_taint)
     except Exception as ex:
         failures.append(("runner-exception", {"error": repr(ex), "trace": traceback.format_exc()[-1500:]}))
     return failures, ncommits, corr
@@ -195,6 +199,20 @@ def phase_e2e(res, seeds, threads=16):
     res.extra.setdefault("correspondence", {})["split3-e2e"] = {"compared": n, "disagreements": len(bad)}
     if bad:
         res.broken_tie("correspondence:split3-e2e", {"disagreements": len(bad), "of": n, "first": bad[0]})
+    # history-level model (Model/Sys.lean, partial commits) vs the binary: predicted vs written notes,
+    # for files outside the two known-finding families (which the model idealises away / mirrors)
+    ncmp, nbad, first = 0, 0, None
+    for sc in scs:
+        if "_observed" not in sc:
+            continue
+        n2, bad2 = S.sys_compare(sc, sc.pop("_observed"), C.run_driver, skip_paths=sc.pop("_skip", []))
+        ncmp += n2; nbad += len(bad2)
+        if bad2 and first is None:
+            first = {"seed": sc["seed"], "disagreement": bad2[0]}
+    res.obligation("correspondence:sys-e2e (Sys model's predicted notes incl. partial commits vs notes written by the binary)", nbad == 0, "correspondence")
+    res.extra.setdefault("correspondence", {})["sys-e2e"] = {"compared": ncmp, "disagreements": nbad}
+    if nbad:
+        res.broken_tie("correspondence:sys-e2e", {"disagreements": nbad, "of": ncmp, "first": first})
     for sc, (failures, ncommits, _) in zip(scs, outs):
         res.count_case(json.dumps(sc["steps"], ensure_ascii=False), nontrivial=ncommits >= 3)
         res.tag([f"commits={ncommits}"] + sc["tags"])
